@@ -2,6 +2,7 @@
 From Coq Require Import String.
 From Coq Require Import List ZArith Bool Lia Permutation.
 From Paloma Require Import Base.Num Valset.Snapshot Valset.SnapshotProofs Valset.Worthy.
+From Paloma Require Gen.C10.
 Import ListNotations.
 Open Scope Z_scope.
 
@@ -131,6 +132,31 @@ Proof.
   - unfold build_verdict in V. destruct (current st) as [cur|] eqn:C; [|discriminate V].
     exists cur. split; [reflexivity|]. right. repeat split; auto.
 Qed.
+
+(** * The source has the shape [worthy] follows (translator output): the early [return true]s of
+    isNewSnapshotWorthy in order (everything else returns false), the sort comparator, the two
+    stake fractions, the account key; TriggerSnapshotBuild stores only behind the verdict. *)
+Lemma source_worthy_shape :
+  Gen.C10.worthy_return_true_conditions =
+    ["currentSnapshot == nil";
+     "len(currentSnapshot.GetValidators()) != len(newSnapshot.GetValidators())";
+     "_, ok := currentMap[val.GetAddress().String()]; !ok";
+     "!sortedCurrent[i].GetAddress().Equals(sortedNew[i].GetAddress())";
+     "percentageCurrent.Sub(percentageNow).Abs().MustFloat64() >= 0.01";
+     "len(currentVal.ExternalChainInfos) != len(newVal.ExternalChainInfos)";
+     "!ok";
+     "len(newv.Traits) != len(currv.Traits)";
+     "_, fnd := newTraitMap[k]; !fnd"]%string /\
+  Gen.C10.worthy_sort_less = "ret[i].ShareCount.LT(ret[j].ShareCount)"%string /\
+  Gen.C10.worthy_fractions =
+    ["percentageCurrent := sdkmath.LegacyNewDecFromInt(sortedCurrent[i].ShareCount).QuoInt(currentSnapshot.TotalShares)";
+     "percentageNow := sdkmath.LegacyNewDecFromInt(sortedNew[i].ShareCount).QuoInt(newSnapshot.TotalShares)"]%string /\
+  Gen.C10.worthy_account_key =
+    "fmt.Sprintf(""%s-%s-%s"", acc.GetChainReferenceID(), acc.GetChainType(), acc.GetAddress())"%string /\
+  Gen.C10.trigger_build_calls =
+    ["createNewSnapshot"; "GetCurrentSnapshot"; "isNewSnapshotWorthy"; "setSnapshotAsCurrent"; "jailReasonStore"]%string /\
+  Gen.C10.trigger_build_guard = "if !worthy { return nil, nil }"%string.
+Proof. repeat split; reflexivity. Qed.
 
 (** * Non-vacuity: the boundary of the 1 % test, a trait change, a re-spelt chain type *)
 
